@@ -8,3 +8,10 @@ import Peppi.Props.C19
 #print axioms Peppi.Props.C19.meleeField_ok
 #print axioms Peppi.Props.C19.player_nameTag
 #print axioms Peppi.Props.C19.C19_nameTag_slice
+#print axioms Peppi.Props.C19.normSpec_fullwidth
+#print axioms Peppi.Props.C19.normSpec_other
+#print axioms Peppi.Props.C19.normSpec_image
+#print axioms Peppi.Props.C19.normSpec_idem
+#print axioms Peppi.Props.C19.toNormalized_image
+#print axioms Peppi.Props.C19.toNormalized_fixed
+#print axioms Peppi.Props.C19.meleeString_cases
